@@ -120,6 +120,33 @@ def extract(repo):
             put(key, val)
     except Exception as e:  # pragma: no cover
         missing.append(f"parser.py: {e}")
+    # ---- backend-specific function realisations (C02)
+    try:
+        with open(os.path.join(repo, "pyrates/backend/fortran/fortran_funcs.py")) as f:
+            ff = f.read()
+        m = re.search(r"\{fname\}\s*=\s*y\((n|n-1)\)\s*\+\s*x_inc\*\(y\(n\)\s*-\s*y\(n-1\)\)", ff)
+        put("finterpBase", m.group(1) if m else None)
+        tf = _parse(repo, "pyrates/backend/torch/torch_funcs.py")
+        tdef = None
+        for n in tf.body:
+            if isinstance(n, ast.Assign) and len(n.targets) == 1 and isinstance(n.targets[0], ast.Name) and n.targets[0].id == "interp" \
+                    and isinstance(n.value, ast.Constant) and isinstance(n.value.value, str):
+                tdef = "".join(n.value.value.split())
+        put("torchInterpDef", tdef)
+        bcls2 = _class(_parse(repo, "pyrates/backend/base/base_backend.py"), "BaseBackend")
+        pi = _func(bcls2, "_process_idx") if bcls2 else None
+        keys = None
+        if pi:
+            tests, adds = [], []
+            for n in ast.walk(pi):
+                if isinstance(n, ast.Compare) and len(n.ops) == 1 and isinstance(n.ops[0], ast.NotIn) and "_offsetted_var_ids" in ast.unparse(n.comparators[0]):
+                    tests.append(ast.unparse(n.left))
+                if isinstance(n, ast.Call) and isinstance(n.func, ast.Attribute) and n.func.attr == "add" and "_offsetted_var_ids" in ast.unparse(n.func.value):
+                    adds.append(ast.unparse(n.args[0]))
+            keys = [tests, adds]
+        put("idxOffsetKeys", keys)
+    except Exception as e:  # pragma: no cover
+        missing.append(f"backend funcs: {e}")
     # ---- auto-07p export (C18): blocked PAR range and the slot that carries the time
     try:
         fb = _parse(repo, "pyrates/backend/fortran/fortran_backend.py")
@@ -303,6 +330,14 @@ def render(T, missing):
     L.append(f"def histFixedStepScalesT : Bool := {'true' if T.get('histReadFixed') == '{lhs}=hist(t*{dt}-{d})[{idx}]' else 'false'}")
     L.append("/-- the history read emitted for adaptive solvers is `hist(t - d)[idx]` -/")
     L.append(f"def histAdaptiveUsesT : Bool := {'true' if T.get('histReadAdaptive') == '{lhs}=hist(t-{d})[{idx}]' else 'false'}")
+    L.append("/-- the two-point formula of the generated Fortran `finterp` starts from sample `n-1` -/")
+    L.append(f"def finterpBaseIsPrev : Bool := {'true' if T.get('finterpBase') == 'n-1' else 'false'}")
+    tk = T.get("idxOffsetKeys") or [[], []]
+    L.append("/-- `_process_idx` tests membership with the very expression it inserts into `_offsetted_var_ids` -/")
+    L.append(f"def idxOffsetKeyConsistent : Bool := {'true' if (len(tk[0]) == 1 and tk[0] == tk[1]) else 'false'}")
+    TORCH_INTERP = "definterp(x_new,x,y):x_new=as_tensor(x_new,dtype=x.dtype)i2=clamp(searchsorted(x,x_new,right=True),1,x.shape[0]-1)i1=i2-1w=clamp((x_new-x[i1])/(x[i2]-x[i1]),0.0,1.0)returny[i1]+w*(y[i2]-y[i1])"
+    L.append("/-- the torch backend's `interp` definition is the clamped two-point formula that the correspondence was validated for -/")
+    L.append(f"def torchInterpIsLinear : Bool := {'true' if T.get('torchInterpDef') == TORCH_INTERP else 'false'}")
     L.append(f"def heunCopiesRhs : Bool := {'true' if T.get('heunCopiesRhs') is True else 'false'}")
     L.append(f"/-- BaseBackend.run builds `times` as np.arange(n)*step (true) or as linspace(0,T,n,endpoint=False)/unknown (false) -/")
     L.append(f"def timeAxisIsArange : Bool := {'true' if T.get('timeAxisKind') == 'arangeStep' else 'false'}")
